@@ -120,7 +120,7 @@ theorem encodeUtf8_ascii (s : Str) (h : Ascii s) : encodeUtf8 s = s.map fun c =>
 theorem encodeUtf8_length_ascii (s : Str) (h : Ascii s) : (encodeUtf8 s).length = s.length := by
   rw [encodeUtf8_ascii s h]; simp
 
-theorem decodeUtf8_cons_ascii (b : UInt8) (rest : Bytes) (h : b.toNat < 128) :
+theorem decodeUtf8_cons_ascii (b : UInt8) (rest : FileOps.Bytes) (h : b.toNat < 128) :
     decodeUtf8 (b :: rest) = (decodeUtf8 rest).map (Char.ofNat b.toNat :: ·) := by
   conv => lhs; unfold decodeUtf8
   simp only [h, if_true]
@@ -886,3 +886,306 @@ def sampleValue : Json :=
 example : Renderable sampleValue := ⟨by decide, by decide⟩
 
 end AioMySensors.JsonText
+
+namespace AioMySensors.Persist
+open AioMySensors Schema JsonText
+
+/-! ## Sorting -/
+
+theorem insertBy_perm {κ α : Type} (lt : κ → κ → Bool) (kv : κ × α) (l : List (κ × α)) :
+    (insertBy lt kv l).Perm (kv :: l) := by
+  induction l with
+  | nil => exact List.Perm.refl _
+  | cons x xs ih =>
+    simp only [insertBy]
+    split
+    · exact ((List.Perm.cons x ih).trans (List.Perm.swap kv x xs))
+    · exact List.Perm.refl _
+
+theorem sortBy_perm {κ α : Type} (lt : κ → κ → Bool) (l : List (κ × α)) : (sortBy lt l).Perm l := by
+  induction l with
+  | nil => exact List.Perm.refl _
+  | cons x xs ih =>
+    simp only [sortBy, List.foldr_cons]
+    exact (insertBy_perm lt x _).trans (List.Perm.cons x ih)
+
+/-- A dict whose keys are already increasing is left as it is. -/
+theorem sortDict_of_sorted {α : Type} (d : PDict Int α) (h : (PDict.keys d).Pairwise (· < ·)) : sortDict d = d := by
+  induction d with
+  | nil => rfl
+  | cons x xs ih =>
+    simp only [PDict.keys, List.map_cons, List.pairwise_cons] at h
+    have ih' := ih (by simpa [PDict.keys] using h.2)
+    simp only [sortDict, sortBy, List.foldr_cons] at ih' ⊢
+    rw [ih']
+    cases xs with
+    | nil => rfl
+    | cons y ys =>
+      have hxy : x.1 < y.1 := h.1 y.1 (by simp)
+      have : intLt y.1 x.1 = false := by simp only [intLt, decide_eq_false_iff_not]; omega
+      simp [insertBy, this]
+
+theorem sortSpecs_perm (specs : List FieldSpec) : (sortSpecs specs).Perm specs := by
+  have h := (sortBy_perm strLt (specs.map fun f => (f.name.toList, f))).map (·.2)
+  simpa [sortSpecs, List.map_map, Function.comp_def] using h
+
+/-! ## The schema round trip with the fields written in name order -/
+
+/-- `loadRecord_dump` for a record dumped in another field order than the schema declares. -/
+theorem loadRecord_dump_perm (specs specs' : List FieldSpec) (nested : Json → Except PyExn Child) (nd : Child → Json)
+    (attr : String → Option Val) (hmem : ∀ f, f ∈ specs' ↔ f ∈ specs) (hnd : (specs'.map fkey).Nodup)
+    (hreq : ∀ f ∈ specs, attr f.name = none → f.required = false)
+    (hval : ∀ f ∈ specs, ∀ v, attr f.name = some v → ValOK nested nd f v) :
+    loadRecord specs nested (dumped specs' attr nd) = .ok (loadedRec specs attr) := by
+  have hres : ∀ f ∈ specs, fieldResult nested (dumped specs' attr nd) f = (attr f.name).map Except.ok ∧
+      (attr f.name = none → f.required = false) := by
+    intro f hf
+    refine ⟨?_, hreq f hf⟩
+    simp only [fieldResult, get?_dumped specs' attr nd hnd f ((hmem f).mpr hf)]
+    cases ha : attr f.name with
+    | none => rfl
+    | some v => simp [loadField_dump nested nd f v (hval f hf v ha)]
+  have hknown : knownKeys specs (dumped specs' attr nd) = true := by
+    simp only [knownKeys, List.all_eq_true, List.any_eq_true, beq_iff_eq]
+    intro kv hkv
+    have := keys_dumped_subset specs' attr nd kv.1 (List.mem_map.mpr ⟨kv, hkv, rfl⟩)
+    obtain ⟨f, hf, e⟩ := List.mem_map.mp this
+    exact ⟨f, (hmem f).mp hf, e⟩
+  simp only [loadRecord, collect_ok _ attr specs [] hres, hknown, List.nil_append, if_true]
+
+theorem saveChildS_eq (c : Child) :
+    saveChildS c = .obj (dumped (sortSpecs Gen.childSchema) (childAttr c) fun _ => .null) := rfl
+theorem saveNodeS_eq (id : Int) (n : Node) :
+    saveNodeS id n = .obj (dumped (sortSpecs Gen.nodeSchema) (nodeAttr id n) saveChildS) := rfl
+
+/-- The records as they stand in the file (fields in name order, as `sort_keys` writes them). -/
+theorem saveChildS_explicit (c : Child) : saveChildS c = .obj
+  [(cs!"child_id", .int c.cid), (cs!"child_type", .int c.ctype), (cs!"description", .str c.desc),
+   (cs!"values", .obj (c.values.map fun kv => (dec kv.1, .str kv.2)))] := rfl
+
+theorem saveNodeS_explicit (id : Int) (n : Node) : saveNodeS id n = .obj
+  [(cs!"battery_level", .int n.battery),
+   (cs!"children", .obj (n.children.map fun kv => (dec kv.1, saveChildS kv.2))),
+   (cs!"heartbeat", .int n.heartbeat), (cs!"node_id", .int id), (cs!"node_type", .int n.ntype),
+   (cs!"protocol_version", .str n.pv), (cs!"sketch_name", .str n.sketchName), (cs!"sketch_version", .str n.sketchVersion),
+   (cs!"sleeping", .bool n.sleeping)] := rfl
+
+theorem childPreLoad_saveChildS (c : Child) : childPreLoad (saveChildS c) = .ok (saveChildS c) := rfl
+theorem nodePreLoad_saveNodeS (id : Int) (n : Node) : nodePreLoad (saveNodeS id n) = .ok (saveNodeS id n) := rfl
+
+theorem sortSpecs_names_nodup (specs : List FieldSpec) (h : (specs.map fkey).Nodup) :
+    ((sortSpecs specs).map fkey).Nodup :=
+  ((sortSpecs_perm specs).map fkey).nodup_iff.mpr h
+
+theorem loadChild_saveChildS (c : Child) (h : ValuesOK c.values) : loadChild (saveChildS c) = .ok c := by
+  have hrec := loadRecord_dump_perm Gen.childSchema (sortSpecs Gen.childSchema) noNested (fun _ => Json.null) (childAttr c)
+    (fun f => (sortSpecs_perm _).mem_iff) (sortSpecs_names_nodup _ childSchema_names_nodup)
+    (by
+      intro f hf
+      simp only [Gen.childSchema, List.mem_cons, List.not_mem_nil, or_false] at hf
+      rcases hf with rfl | rfl | rfl | rfl <;> simp [childAttr])
+    (by
+      intro f hf v hv
+      simp only [Gen.childSchema, List.mem_cons, List.not_mem_nil, or_false] at hf
+      rcases hf with rfl | rfl | rfl | rfl <;> simp [childAttr] at hv <;> subst hv <;> simp [ValOK, inRange]
+      exact ⟨h.nodup, h.keys⟩)
+  simp only [loadChild, childPreLoad_saveChildS]
+  rw [saveChildS_eq]
+  simp only [hrec]
+  rfl
+
+theorem loadNode_saveNodeS (id : Int) (n : Node) (h : NodeOK id n) :
+    loadNode (saveNodeS id n) = .ok (id, { n with reboot := false }) := by
+  have hrec := loadRecord_dump_perm Gen.nodeSchema (sortSpecs Gen.nodeSchema) loadChild saveChildS (nodeAttr id n)
+    (fun f => (sortSpecs_perm _).mem_iff) (sortSpecs_names_nodup _ nodeSchema_names_nodup)
+    (by
+      intro f hf
+      simp only [Gen.nodeSchema, List.mem_cons, List.not_mem_nil, or_false] at hf
+      rcases hf with rfl | rfl | rfl | rfl | rfl | rfl | rfl | rfl | rfl <;> simp [nodeAttr])
+    (by
+      intro f hf v hv
+      simp only [Gen.nodeSchema, List.mem_cons, List.not_mem_nil, or_false] at hf
+      rcases hf with rfl | rfl | rfl | rfl | rfl | rfl | rfl | rfl | rfl <;> simp [nodeAttr] at hv <;> subst hv <;>
+        simp [ValOK, inRange]
+      · exact ⟨h.id_lo, h.id_hi⟩
+      · refine ⟨h.children_nodup, ?_, fun _ _ _ => rfl, ?_⟩
+        · intro k hk
+          obtain ⟨kc, hkc, rfl⟩ := List.mem_map.mp hk
+          exact (h.children kc hkc).key_ok
+        · intro k c hkc
+          exact loadChild_saveChildS c (h.children (k, c) hkc).values
+      · exact ⟨h.bat_lo, h.bat_hi⟩)
+  simp only [loadNode, nodePreLoad_saveNodeS]
+  rw [saveNodeS_eq]
+  simp only [hrec]
+  rfl
+
+theorem loadNodes_saveS (r acc : PDict Int Node) (hnd : r.keys.Nodup) (hok : ∀ kn ∈ r, NodeOK kn.1 kn.2)
+    (hdis : ∀ k ∈ r.keys, k ∉ acc.keys) :
+    loadNodes acc (r.map fun kv => (dec kv.1, saveNodeS kv.1 kv.2)) = .ok (acc ++ persisted r) := by
+  induction r generalizing acc with
+  | nil => simp [loadNodes, persisted]
+  | cons kn rest ih =>
+    obtain ⟨id, n⟩ := kn
+    simp only [PDict.keys, List.map_cons, List.nodup_cons, List.mem_cons, forall_eq_or_imp] at hnd hok hdis
+    simp only [List.map_cons, loadNodes, loadNode_saveNodeS id n hok.1]
+    rw [PDict.set_fresh _ _ _ hdis.1, ih _ hnd.2 hok.2]
+    · simp [persisted]
+    · intro k' hk'
+      simp only [PDict.keys_append, List.mem_append, not_or]
+      refine ⟨hdis.2 k' hk', ?_⟩
+      simp [PDict.keys]
+      intro e; subst e; exact hnd.1 hk'
+
+/-! ## Canonical registries: the representatives `load` returns for what `save` wrote -/
+
+/-- The three dict levels in increasing key order and no `reboot` flag set (it is not persisted).
+Python compares dicts regardless of order, so every registry is `==` to a canonical one
+(`canonReg`); `load` of a saved file yields the canonical one. -/
+def Canon (r : PDict Int Node) : Prop :=
+  (PDict.keys r).Pairwise (· < ·) ∧
+  (∀ kn ∈ r, (PDict.keys kn.2.children).Pairwise (· < ·)) ∧
+  (∀ kn ∈ r, ∀ kc ∈ kn.2.children, (PDict.keys kc.2.values).Pairwise (· < ·)) ∧
+  ∀ kn ∈ r, kn.2.reboot = false
+
+instance (r : PDict Int Node) : Decidable (Canon r) := by unfold Canon; infer_instance
+
+theorem map_snd_id {α β : Type} (l : List (α × β)) (f : β → β) (h : ∀ kv ∈ l, f kv.2 = kv.2) :
+    l.map (fun kv => (kv.1, f kv.2)) = l := by
+  conv => rhs; rw [← List.map_id l]
+  apply List.map_congr_left
+  intro kv hkv
+  obtain ⟨k, v⟩ := kv
+  simp only [id, Prod.mk.injEq, true_and]
+  exact h (k, v) hkv
+
+theorem canonReg_of_canon (r : PDict Int Node) (h : Canon r) : canonReg r = r := by
+  obtain ⟨h1, h2, h3, _⟩ := h
+  have hn : r.map (fun kn => (kn.1, canonNode kn.2)) = r := by
+    apply map_snd_id
+    intro kn hkn
+    have hc : kn.2.children.map (fun kc => (kc.1, canonChild kc.2)) = kn.2.children := by
+      apply map_snd_id
+      intro kc hkc
+      simp only [canonChild, sortDict_of_sorted _ (h3 kn hkn kc hkc)]
+    simp only [canonNode, hc, sortDict_of_sorted _ (h2 kn hkn)]
+  simp only [canonReg, hn, sortDict_of_sorted _ h1]
+
+theorem persisted_of_noReboot (r : PDict Int Node) (hr : ∀ kn ∈ r, kn.2.reboot = false) : persisted r = r := by
+  simp only [persisted]
+  refine map_snd_id r (fun n => { n with reboot := false }) ?_
+  intro kn hkn
+  have := hr kn hkn
+  obtain ⟨k, n⟩ := kn
+  cases n; simp_all
+
+/-- **C13 at the level of the sorted value**: what `save` hands to `json.dumps`, in the order
+`sort_keys=True` writes it, loads back to the (canonical) registry. -/
+theorem load_saveSorted (r : PDict Int Node) (h : RegOK r) (hc : Canon r) : load (saveSorted r) = .ok r := by
+  simp only [load, loadInto, saveSorted, canonReg_of_canon r hc, loadRaw]
+  rw [loadNodes_saveS r [] h.nodup h.nodes (by simp [PDict.keys])]
+  simp [mapRead, persisted_of_noReboot r hc.2.2.2]
+
+/-! ## What `save` hands to `json.dumps` is `Renderable` -/
+
+theorem renderable_int_iff (n : Int) : renderable (.int n) = true ↔ KeyOK n := by
+  simp [renderable, KeyOK, digitCount]
+
+theorem renderableKvs_map {α : Type} (l : List α) (g : α → Str) (f : α → Json) :
+    renderableKvs (l.map fun a => (g a, f a)) = true ↔ ∀ a ∈ l, renderable (f a) = true := by
+  induction l with
+  | nil => simp [renderableKvs]
+  | cons a l ih => simp [renderableKvs, ih]
+
+theorem distinctKeysKvs_map {α : Type} (l : List α) (g : α → Str) (f : α → Json) :
+    distinctKeysKvs (l.map fun a => (g a, f a)) = true ↔ ∀ a ∈ l, JsonText.distinctKeys (f a) = true := by
+  induction l with
+  | nil => simp [distinctKeysKvs]
+  | cons a l ih => simp [distinctKeysKvs, ih]
+
+theorem dec_inj {a b : Int} (ha : KeyOK a) (hb : KeyOK b) (h : dec a = dec b) : a = b := by
+  have h1 := pyInt?_dec a ha
+  rw [h, pyInt?_dec b hb] at h1
+  exact (Option.some.inj h1).symm
+
+theorem nodup_dec_keys {α : Type} (d : PDict Int α) (f : Int × α → Json) (h : d.keys.Nodup) (hk : ∀ k ∈ d.keys, KeyOK k) :
+    ((d.map fun kv => (dec kv.1, f kv)).map (·.1)).Nodup := by
+  induction d with
+  | nil => simp
+  | cons kv rest ih =>
+    simp only [PDict.keys, List.map_cons, List.nodup_cons, List.mem_cons, forall_eq_or_imp] at h hk
+    simp only [List.map_cons, List.nodup_cons, List.map_map]
+    refine ⟨?_, by simpa [List.map_map] using ih h.2 hk.2⟩
+    intro hm
+    obtain ⟨kv', hkv', e⟩ := List.mem_map.mp hm
+    have hk' : KeyOK kv'.1 := hk.2 kv'.1 (List.mem_map.mpr ⟨kv', hkv', rfl⟩)
+    have := dec_inj hk' hk.1 e
+    exact h.1 (this ▸ List.mem_map.mpr ⟨kv', hkv', rfl⟩)
+
+theorem keyOK_small (n : Int) (h : n.natAbs < 1000) : KeyOK n :=
+  Nat.le_trans (digitCount_le_of_lt (k := 3) (by decide) h) (by decide)
+
+theorem renderable_saveChildS (c : Child) (hi : childIntsOK c = true) : renderable (saveChildS c) = true := by
+  simp only [childIntsOK, Bool.and_eq_true, intOK_iff] at hi
+  rw [saveChildS_explicit]
+  simp only [renderable, renderableKvs, renderableKvs_map, Bool.and_eq_true, decide_eq_true_eq, and_true, implies_true]
+  exact ⟨hi.1, hi.2⟩
+
+theorem distinct_saveChildS (c : Child) (h : ValuesOK c.values) : JsonText.distinctKeys (saveChildS c) = true := by
+  rw [saveChildS_explicit]
+  simp only [JsonText.distinctKeys, distinctKeysKvs, distinctKeysKvs_map, Bool.and_eq_true, decide_eq_true_eq, and_true,
+    implies_true, true_and]
+  exact ⟨by simp only [List.map_cons, List.map_nil]; decide, nodup_dec_keys c.values _ h.nodup h.keys⟩
+
+theorem renderable_saveNodeS (id : Int) (n : Node) (h : NodeOK id n) (hi : nodeIntsOK n = true) :
+    renderable (saveNodeS id n) = true := by
+  simp only [nodeIntsOK, Bool.and_eq_true, intOK_iff, List.all_eq_true] at hi
+  have hid : KeyOK id := keyOK_small id (by
+    have h1 := h.id_lo; have h2 := h.id_hi
+    have e1 : Gen.nodeIdMin = 0 := rfl
+    have e2 : Gen.nodeIdMax = 255 := rfl
+    omega)
+  have hbat : KeyOK n.battery := keyOK_small _ (by
+    have h1 := h.bat_lo; have h2 := h.bat_hi
+    have e1 : Gen.minBattery = 0 := rfl
+    have e2 : Gen.maxBattery = 100 := rfl
+    omega)
+  rw [saveNodeS_explicit]
+  simp only [renderable, renderableKvs, renderableKvs_map, Bool.and_eq_true, decide_eq_true_eq, and_true]
+  exact ⟨hbat, fun kc hkc => renderable_saveChildS kc.2 (hi.2 kc hkc), hi.1.2, hid, hi.1.1⟩
+
+theorem distinct_saveNodeS (id : Int) (n : Node) (h : NodeOK id n) : JsonText.distinctKeys (saveNodeS id n) = true := by
+  rw [saveNodeS_explicit]
+  simp only [JsonText.distinctKeys, distinctKeysKvs, distinctKeysKvs_map, Bool.and_eq_true, decide_eq_true_eq, and_true, true_and]
+  refine ⟨by simp only [List.map_cons, List.map_nil]; decide, ?_, fun kc hkc => distinct_saveChildS kc.2 (h.children kc hkc).values⟩
+  exact nodup_dec_keys n.children _ h.children_nodup (fun k hk => by
+    obtain ⟨kc, hkc, rfl⟩ := List.mem_map.mp hk
+    exact (h.children kc hkc).key_ok)
+
+/-- The value `save` hands to `json.dumps` is in the rendered fragment: every integer printable
+(keys, id and battery level by `RegOK`, the other integer attributes by `regIntsOK`), no key twice. -/
+theorem renderable_saveSorted (r : PDict Int Node) (h : RegOK r) (hi : regIntsOK r = true) (hc : Canon r) :
+    Renderable (saveSorted r) := by
+  simp only [regIntsOK, List.all_eq_true] at hi
+  simp only [saveSorted, canonReg_of_canon r hc]
+  constructor
+  · simp only [renderable, renderableKvs_map]
+    exact fun kn hkn => renderable_saveNodeS kn.1 kn.2 (h.nodes kn hkn) (hi kn hkn)
+  · simp only [JsonText.distinctKeys, distinctKeysKvs_map, Bool.and_eq_true, decide_eq_true_eq]
+    refine ⟨?_, fun kn hkn => distinct_saveNodeS kn.1 kn.2 (h.nodes kn hkn)⟩
+    exact nodup_dec_keys r _ h.nodup (fun k hk => by
+      obtain ⟨kn, hkn, rfl⟩ := List.mem_map.mp hk
+      have hn := h.nodes kn hkn
+      exact keyOK_small _ (by
+        have h1 := hn.id_lo; have h2 := hn.id_hi
+        have e1 : Gen.nodeIdMin = 0 := rfl
+        have e2 : Gen.nodeIdMax = 255 := rfl
+        omega))
+
+/-- **Text-level round trip**: the text `save` writes parses to the value `save` handed over, and
+`load` of that value is the registry. -/
+theorem parse_saveText (r : PDict Int Node) (h : RegOK r) (hi : regIntsOK r = true) (hc : Canon r) :
+    parse (saveText r) = .ok (saveSorted r) :=
+  parse_render _ (renderable_saveSorted r h hi hc)
+
+end AioMySensors.Persist
